@@ -169,7 +169,12 @@ Definition check_step (L : layout) (s s' : state) (phys held : list key)
         (if has_absorbing L then [] else
          match spec_choice L phys k with
          | Some m =>
-           c (negb (forallb (fun t => if is_action t then has_ev (Pressed t) evs else mem t held') (m_to m)
+           (* "by the end of that step every one of its output keys has been pressed (a non-modifier output key by an
+              actual press event in that step)": a modifier output is down at the end, or was pressed in the step (a
+              no-repeat mapping may lift its own modifiers again in the firing step; that they are down when the final
+              key goes down is C04's clause, below) *)
+           c (negb (forallb (fun t => if is_action t then has_ev (Pressed t) evs
+                                       else mem t held' || has_ev (Pressed t) evs) (m_to m)
                     && (if is_normal m then subset (m_to m) held' else true))) K_C03_fire
            ++ (if is_action_mapping is_action m then
                  match last_opt (m_to m) with
